@@ -482,6 +482,8 @@ def extract_loopfn(repo, ent):
             if len(parts) != 3:
                 raise ExtractError('for header does not have three parts')
             init, cond, incr = parts
+            if not cond.strip():
+                cond = ' true '      # for (;;)
         else:
             cond = hdr
         be = _statement_end(inner, q + 1)
@@ -502,7 +504,7 @@ def extract_loopfn(repo, ent):
     sfx = '' if P == 'LC' else '_' + P
     body2 = _rewrite_jumps(body, sfx)
     name = ent['name']
-    name_rx = r'(?<![\w:])%s(?![\w])' % re.escape(name)
+    name_rx = r'(?<![\w])%s(?![\w])' % re.escape(name)
     if len(re.findall(name_rx, header)) != 1:
         raise ExtractError('function name %s not found exactly once in its header' % name)
     header2 = re.sub(name_rx, lambda m: name + '__lc', header)
